@@ -27,6 +27,8 @@ func minimiseMode(t *testing.T, engine, prop string, fn PropFn) {
 		os.Exit(2)
 	}
 	oracle := rf.Violation.Oracle
+	replayKnown = knownSet()
+	delete(replayKnown, rf.Violation.Sig)
 	tries := 0
 	var lastGood *Run
 	// attempts > 1 only when the raw trace does not reproduce at the first try: the code under test may
